@@ -56,3 +56,7 @@ def define(M):
     # C18: regression mutant of the repaired defect (de3470c): doubly encoded glyphs neutral again
     M("C18", "glyph_with_script_and_neutral_code_points_neutral_again", "Lib/ufo2ft/util.py",
       "    for glyphs in glyphSets.values():\n        neutralGlyphs -= glyphs\n", "")
+    # C08: regression mutant of the repaired defect (e1cb1f0): curs anchors from the source font again
+    M("C08", "curs_anchors_looked_up_in_source_font_again", "Lib/ufo2ft/featureWriters/cursFeatureWriter.py",
+      "                return self._getAnchor(glyph.name, anchorName, anchor=anchor)",
+      "                return self._getAnchor(glyph.name, anchorName)")
